@@ -173,8 +173,8 @@ def _bucket_index_trees(ctx, f, consumer):
     return out
 
 
-def r2_bucket_index(ctx):
-    ctx.set_rule('C01.R2')
+def r2_bucket_index(ctx, rule='C01.R2'):
+    ctx.set_rule(rule)
     fa = ctx.anchor(Q + '::add')
     fc = ctx.anchor(Q + '::cancel')
     if not (fa and fc):
@@ -377,6 +377,40 @@ def r4_past_guard(ctx, cfg='A'):
               {'mismatches': bad} if bad else {'table': 'time<bound: panic; time==bound: accept; time>bound: accept'})
 
 
+def _param_fields(ctx):
+    """fields of CQueue that are set in `new` from its two parameters (and constants) and never written again: bucket count, bucket width
+    and what is derived from them"""
+    P = ctx.P
+    qa = P.adts.get(Q) or {}
+    names = [fd['n'] for v in qa.get('variants', []) for fd in v['fields']]
+    written = set()
+    for g in P.fn_list:
+        if g.key.startswith(Q + '::') and g.kind != 'promoted' and not g.key.startswith(Q + '::new') and not g.key.startswith(Q + '::default'):
+            for nm in names:
+                if g.writes_to_field(nm):
+                    written.add(nm)
+            for c in g.calls():
+                # mutation through a borrowed field: `self.t1 += ..`, `self.buckets[i].add(..)`, `mem::replace(&mut self.x, ..)`
+                if c.args and (c.name.split('::')[-1] in ('add_assign', 'sub_assign', 'replace', 'swap', 'take') or (c.argtys and c.argtys[0].startswith('&mut'))):
+                    tgt = peel(g.expr_operand(c.args[0], c.b, 'T'))
+                    rf = receiver_field(g.expr_operand(c.args[0], c.b, 'T'))
+                    if rf in names:
+                        written.add(rf)
+    out = set()
+    fn = P.fns.get(Q + '::new')
+    if fn is not None:
+        for b, t in ret_trees(fn):
+            t = peel(t)
+            if t[0] == 'agg' and len(t) > 3:
+                for nm, v in zip(t[3], t[2]):
+                    if nm in written:
+                        continue
+                    deps = [x for x in walk(v) if x[0] == 'arg']
+                    if deps and all(x[1] in (1, 2) for x in deps):
+                        out.add(nm)
+    return out
+
+
 def _NON_WINDOW(ctx):
     """fields of CQueue that fetch_next writes but that are not part of the scan window: the element counter and the lower bound"""
     P = ctx.P
@@ -397,8 +431,8 @@ def _NON_WINDOW(ctx):
     return out
 
 
-def r5_fetch_skeleton(ctx):
-    ctx.set_rule('C01.R5')
+def r5_fetch_skeleton(ctx, rule='C01.R5'):
+    ctx.set_rule(rule)
     f = ctx.anchor(Q + '::fetch_next')
     if not f:
         return
@@ -412,6 +446,7 @@ def r5_fetch_skeleton(ctx):
                   'the zero-delay container is consulted before any bucket is popped', p.where())
     # bound written with the front time of the bucket that is popped, before the pop, head not changed in between
     n = 0
+    _seen_steps = set()
     for path, outcome, decs in fn_paths(ctx, f):
         if outcome != 'return':
             continue
@@ -441,6 +476,32 @@ def r5_fetch_skeleton(ctx):
             late = [e for e in effs[ip + 1:] if e[0] == 'w' and e[2] in window]
             ctx.check(not late, 'no-advance-after-pop', 'fetch_next does not advance the scan window after popping the element it returns', f.where_path(path),
                       sorted({e[2] for e in late}))
+            # the window is stepped, never repositioned: the new value of a window field is computed from the window itself and the queue's
+            # two parameters (bucket count, bucket width) alone - not from a stored timestamp, a front time or a count of empty turns.
+            # (Whether a jump over several buckets lands on the right window is arithmetic this analysis cannot check: a correct
+            # skip-ahead optimisation would be reported here as well; DESIGN section 4 C01.)
+            params = _param_fields(ctx)
+            steps_ = []
+            for e in effs[:ip]:
+                if e[0] == 'w' and e[2] in window and e[4] is not None:
+                    steps_.append(e)
+                elif e[0] == 'c' and e[1].name.split('::')[-1] in ('add_assign', 'sub_assign') and len(e[2]) == 2:
+                    # `self.t0 += self.t` on a Duration is a call of AddAssign: a step of the field it borrows
+                    tgt = peel(e[2][0])
+                    if tgt[0] == 'field' and len(tgt) > 3 and str(tgt[3]).split('<')[0].endswith('CQueue') and tgt[2] not in _NON_WINDOW(ctx) and tgt[2] not in params:
+                        steps_.append(('w', 'inc', tgt[2], tgt[3], e[2][1], e[1].b, 'T'))
+            for e in steps_:
+                reads = {x[2] for x in walk(e[4]) if x[0] == 'field' and not str(x[2]).isdigit()}
+                calls_ = {x[1] for x in walk(e[4]) if x[0] == 'call' and not x[1].startswith(('std::ops::', 'core::ops::', 'std::time::Duration::add', 'core::time::Duration::add')) and
+                          x[1].split('::')[-1] not in ('add', 'add_assign', 'rem', 'clone', 'deref', 'deref_mut', 'from', 'into')}
+                alien = sorted(r for r in reads if r not in window and r not in params)
+                k_ = (e[2], tuple(alien), tuple(sorted(calls_)))
+                if k_ in _seen_steps:
+                    continue
+                _seen_steps.add(k_)
+                ctx.check(not alien and not calls_, 'window-stepped-not-repositioned:%s' % e[2],
+                          'the scan window moves by a step computed from the window and the queue parameters only', f.where_path(path),
+                          {'field': e[2], 'reads': alien, 'calls': sorted(calls_), 'value': show(e[4])[:140]})
         wr = [i for i, e in enumerate(effs[:ip]) if e[0] == 'w' and e[1] == 'set' and e[4] is not None and
               peel(e[4])[0] == 'call' and peel(e[4])[1] == L + '::front_time']
         ok = False
@@ -593,7 +654,36 @@ def r7_timestamp_roundtrip(ctx):
             ctx.check(not lossy, 'fetch-returns-stored-time', 'fetch_next returns the stored (event, time) pair without converting the time', ff.where_path(path))
 
 
+LOSSY_TIME = ('as_micros', 'as_millis', 'as_secs', 'as_secs_f32', 'as_secs_f64', 'subsec_micros', 'subsec_millis', 'mul_f32', 'mul_f64',
+              'div_f32', 'div_f64', 'div_duration_f32', 'div_duration_f64')
+
+
+def r8_time_grid(ctx, rule='C01.R8'):
+    """the calendar is laid out in the resolution timestamps have: bucket index (add, cancel) and scan window (fetch_next) are both computed
+    from full-resolution values (Duration arithmetic, as_nanos) - a coarser read-out of a timestamp or of the bucket width on one side
+    makes the index grid and the window grid drift apart for widths that are not a multiple of the coarser unit"""
+    ctx.set_rule(rule)
+    P = ctx.P
+    fs = [f for f in P.fn_list if f.key.startswith(('des_cqueue::stable::CQueue::', 'des_cqueue::stable::linked_list::DualLinkedList::')) and f.kind != 'promoted']
+    fine = [s for f in fs for s in f.calls() if s.name.endswith('Duration::as_nanos')]
+    ctx.floor('full-resolution read-outs (as_nanos) in the calendar queue', len(fine), 2)
+    n = 0
+    for f in fs:
+        for s in f.calls():
+            if 'time::Duration::' in s.name or s.name.startswith('std::time::Duration'):
+                n += 1
+                ctx.check(s.name.split('::')[-1] not in LOSSY_TIME, 'coarse-time-readout:%s' % f.key.split('::')[-1],
+                          'the calendar queue never reads a timestamp or the bucket width in a unit coarser than its resolution', s.where(), s.name)
+    ctx.ok('Duration operations in the calendar queue inspected: %d' % n, None)
+
+
 def run(ctx):
+    # (R9) the per-bucket list stays a well-formed doubly linked list: a node handed to the list is linked on both sides, a node taken
+    # out (pop, cancel) is unlinked on both sides before it is released (shared with C15.R4) - a half-unlinked neighbour loses the next
+    # event inserted in front of it
+    from .C15 import r4_node_typestate
+    r4_node_typestate(ctx, rule='C01.R9')
+    r8_time_grid(ctx)
     r7_timestamp_roundtrip(ctx)
     r1_len_accounting(ctx)
     r2_bucket_index(ctx)
